@@ -21,3 +21,4 @@ def run(chk):
     misc_contracts.models_transitions(chk, "C07")
     X.resubmitter_total(chk, "C07")
     wrapper_contracts.wrapper_obligations(chk, "C07", want=("C07",))
+    wrapper_contracts.control_signals_not_exceptions(chk, "C07")
